@@ -63,6 +63,9 @@ impl<R: Read + Seek> ReadBox<&mut R> for IlstBox {
                     "ilst box contains a box with a larger size than it",
                 ));
             }
+            if s == 0 {
+                return Err(Error::InvalidData("ilst box contains a box with size 0"));
+            }
 
             match name {
                 BoxType::NameBox => {
@@ -137,6 +140,11 @@ impl<R: Read + Seek> ReadBox<&mut R> for IlstItemBox {
             if s > size {
                 return Err(Error::InvalidData(
                     "ilst item box contains a box with a larger size than it",
+                ));
+            }
+            if s == 0 {
+                return Err(Error::InvalidData(
+                    "ilst item box contains a box with size 0",
                 ));
             }
 
